@@ -177,6 +177,16 @@ fn rec(task: &str, ev: &str, body: String) {
   rzmq::verif::event(ev, &b);
 }
 
+fn socket2_linger0(s: std::net::TcpStream) -> std::net::TcpStream {
+  // SO_LINGER {on, 0}: closing sends RST
+  use std::os::fd::AsRawFd;
+  let l = libc::linger { l_onoff: 1, l_linger: 0 };
+  unsafe {
+    libc::setsockopt(s.as_raw_fd(), libc::SOL_SOCKET, libc::SO_LINGER, &l as *const _ as *const libc::c_void, std::mem::size_of::<libc::linger>() as libc::socklen_t);
+  }
+  s
+}
+
 fn subst(env: &Env, s: &str) -> String {
   if let Some(name) = s.strip_prefix('$') {
     env.vars.lock().unwrap().get(name).cloned().unwrap_or_else(|| s.to_string())
@@ -242,6 +252,7 @@ async fn run_op(env: Arc<Env>, task: String, op: Value) {
       let s = sock.expect("sock");
       let ep = subst(&env, op["ep"].as_str().unwrap_or(""));
       rec(&task, "call", format!("\"op\":\"{}\",\"sock\":\"{}\",\"ep\":\"{}\",\"t\":{}", name, sname, ep, ms(&env)));
+      let t1 = Instant::now();
       let r = match name.as_str() {
         "bind" => s.bind(&ep).await,
         "connect" => s.connect(&ep).await,
@@ -257,13 +268,36 @@ async fn run_op(env: Arc<Env>, task: String, op: Value) {
           env.vars.lock().unwrap().insert(save.to_string(), actual.clone());
         }
       }
-      rec(&task, "ret", format!("\"op\":\"{}\",\"sock\":\"{}\",\"res\":\"{}\",\"ep\":\"{}\",\"t\":{}", name, sname, res_str(&r), actual, ms(&env)));
+      rec(&task, "ret", format!("\"op\":\"{}\",\"sock\":\"{}\",\"res\":\"{}\",\"ep\":\"{}\",\"dur\":{},\"t\":{}", name, sname, res_str(&r), actual, t1.elapsed().as_millis(), ms(&env)));
     }
     "opt" => {
       let s = sock.expect("sock");
       let id = op["id"].as_i64().unwrap_or(0) as i32;
+      rec(&task, "call", format!("\"op\":\"opt\",\"sock\":\"{}\",\"id\":{},\"t\":{}", sname, id, ms(&env)));
+      let t1 = Instant::now();
       let r = s.set_option_raw(id, &opt_bytes(op["kind"].as_str().unwrap_or("i32"), &op["value"])).await;
-      rec(&task, "ret", format!("\"op\":\"opt\",\"sock\":\"{}\",\"id\":{},\"res\":\"{}\",\"t\":{}", sname, id, res_str(&r), ms(&env)));
+      rec(&task, "ret", format!("\"op\":\"opt\",\"sock\":\"{}\",\"id\":{},\"res\":\"{}\",\"dur\":{},\"t\":{}", sname, id, res_str(&r), t1.elapsed().as_millis(), ms(&env)));
+    }
+    "getopt" => {
+      let s = sock.expect("sock");
+      let id = op["id"].as_i64().unwrap_or(0) as i32;
+      rec(&task, "call", format!("\"op\":\"getopt\",\"sock\":\"{}\",\"id\":{},\"t\":{}", sname, id, ms(&env)));
+      let t1 = Instant::now();
+      let r = s.get_option(id).await;
+      rec(&task, "ret", format!("\"op\":\"getopt\",\"sock\":\"{}\",\"id\":{},\"res\":\"{}\",\"dur\":{},\"t\":{}", sname, id, res_str(&r), t1.elapsed().as_millis(), ms(&env)));
+    }
+    "new_socket" => {
+      // create a socket now (e.g. in a context that has been terminated)
+      let ci = op["ctx"].as_u64().unwrap_or(0) as usize;
+      let ty = op["type"].as_str().unwrap_or("PUSH").to_string();
+      rec(&task, "call", format!("\"op\":\"new_socket\",\"sock\":\"{}\",\"ctx\":{},\"t\":{}", sname, ci, ms(&env)));
+      let t1 = Instant::now();
+      let r = env.ctxs[ci].socket(socket_type(&ty));
+      let rs = res_str(&r);
+      if let Ok(so) = r {
+        env.socks.lock().unwrap().insert(sname.clone(), so);
+      }
+      rec(&task, "ret", format!("\"op\":\"new_socket\",\"sock\":\"{}\",\"ctx\":{},\"res\":\"{}\",\"dur\":{},\"t\":{}", sname, ci, rs, t1.elapsed().as_millis(), ms(&env)));
     }
     "send" => {
       let s = sock.expect("sock");
@@ -396,11 +430,12 @@ async fn run_op(env: Arc<Env>, task: String, op: Value) {
       let mp = op["multipart"].as_bool().unwrap_or(false);
       for _ in 0..n {
         let t1 = Instant::now();
+        rec(&task, "call", format!("\"op\":\"{}\",\"sock\":\"{}\",\"t\":{}", if mp { "recv_mp" } else { "recv" }, sname, ms(&env)));
         if mp {
           match with_timeout(tmo, s.recv_multipart()).await {
             Ok(fr) => {
               let (ids, ok, sizes, mores) = describe_frames(&fr);
-              rec(&task, "ret", format!("\"op\":\"recv_mp\",\"sock\":\"{}\",\"res\":\"ok\",\"ids\":{:?},\"intact\":{},\"sizes\":{:?},\"mores\":{:?},\"t\":{}", sname, ids, ok, sizes, mores, ms(&env)));
+              rec(&task, "ret", format!("\"op\":\"recv_mp\",\"sock\":\"{}\",\"res\":\"ok\",\"ids\":{:?},\"intact\":{},\"sizes\":{:?},\"mores\":{:?},\"dur\":{},\"t\":{}", sname, ids, ok, sizes, mores, t1.elapsed().as_millis(), ms(&env)));
             }
             Err(e) => {
               rec(&task, "ret", format!("\"op\":\"recv_mp\",\"sock\":\"{}\",\"res\":\"err:{}\",\"dur\":{},\"t\":{}", sname, err_kind(&e), t1.elapsed().as_millis(), ms(&env)));
@@ -412,7 +447,7 @@ async fn run_op(env: Arc<Env>, task: String, op: Value) {
             Ok(m) => {
               let d = m.data().unwrap_or(&[]);
               let (id, ok) = parse_payload(d);
-              rec(&task, "ret", format!("\"op\":\"recv\",\"sock\":\"{}\",\"res\":\"ok\",\"mid\":\"{}\",\"intact\":{},\"size\":{},\"more\":{},\"t\":{}", sname, id, ok, d.len(), m.is_more(), ms(&env)));
+              rec(&task, "ret", format!("\"op\":\"recv\",\"sock\":\"{}\",\"res\":\"ok\",\"mid\":\"{}\",\"intact\":{},\"size\":{},\"more\":{},\"dur\":{},\"t\":{}", sname, id, ok, d.len(), m.is_more(), t1.elapsed().as_millis(), ms(&env)));
             }
             Err(e) => {
               rec(&task, "ret", format!("\"op\":\"recv\",\"sock\":\"{}\",\"res\":\"err:{}\",\"dur\":{},\"t\":{}", sname, err_kind(&e), t1.elapsed().as_millis(), ms(&env)));
@@ -491,9 +526,14 @@ async fn run_op(env: Arc<Env>, task: String, op: Value) {
     }
     "monitor" => {
       let s = sock.expect("sock");
-      if let Ok(m) = s.monitor_default().await {
+      rec(&task, "call", format!("\"op\":\"monitor\",\"sock\":\"{}\",\"t\":{}", sname, ms(&env)));
+      let t1 = Instant::now();
+      let r = s.monitor_default().await;
+      let rs = res_str(&r);
+      if let Ok(m) = r {
         env.monitors.lock().await.insert(sname.clone(), m);
       }
+      rec(&task, "ret", format!("\"op\":\"monitor\",\"sock\":\"{}\",\"res\":\"{}\",\"dur\":{},\"t\":{}", sname, rs, t1.elapsed().as_millis(), ms(&env)));
     }
     "wait_event" => {
       // waits until the socket's monitor reports an event whose Debug text contains `kind`
@@ -520,10 +560,17 @@ async fn run_op(env: Arc<Env>, task: String, op: Value) {
     }
     "drain_events" => {
       let mut mons = env.monitors.lock().await;
+      let max_events = op["max_events"].as_u64().unwrap_or(u64::MAX);
+      let mut seen = 0u64;
       if let Some(m) = mons.get_mut(&sname) {
         while let Ok(Ok(ev)) = tokio::time::timeout(Duration::from_millis(if tmo == 0 { 50 } else { tmo }), m.recv()).await {
+          seen += 1;
+          if seen > max_events {
+            break;
+          }
           let txt = format!("{:?}", ev);
-          rec(&task, "event", format!("\"sock\":\"{}\",\"event\":\"{}\",\"t\":{}", sname, txt.split(|c: char| c == ' ' || c == '{').next().unwrap_or(""), ms(&env)));
+          let ivl = if let rzmq::socket::SocketEvent::ConnectRetried { interval, .. } = &ev { interval.as_millis() as i64 } else { -1 };
+          rec(&task, "event", format!("\"sock\":\"{}\",\"event\":\"{}\",\"interval_ms\":{},\"t\":{}", sname, txt.split(|c: char| c == ' ' || c == '{').next().unwrap_or(""), ivl, ms(&env)));
         }
       }
     }
@@ -568,6 +615,35 @@ async fn run_op(env: Arc<Env>, task: String, op: Value) {
         "err:NoListener".into()
       };
       rec(&task, "ret", format!("\"op\":\"raw_accept\",\"raw\":\"{}\",\"res\":\"{}\",\"t\":{}", rn, res, ms(&env)));
+    }
+    "raw_accept_loop" => {
+      // accept up to n connections (until nothing comes for timeout_ms), note when each arrived,
+      // and get rid of it: "close" (FIN), "rst" (SO_LINGER 0) or "hold" (kept open, silent)
+      let ln = op["listener"].as_str().unwrap_or("l").to_string();
+      let n = op["n"].as_u64().unwrap_or(5);
+      let mode = op["mode"].as_str().unwrap_or("close").to_string();
+      let idle = Duration::from_millis(if tmo == 0 { 5000 } else { tmo });
+      let ls = env.listeners.lock().await;
+      if let Some(l) = ls.get(&ln) {
+        let mut held = Vec::new();
+        for k in 1..=n {
+          match tokio::time::timeout(idle, l.accept()).await {
+            Ok(Ok((st, _))) => {
+              rec(&task, "ret", format!("\"op\":\"raw_accepted\",\"listener\":\"{}\",\"k\":{},\"t\":{}", ln, k, ms(&env)));
+              match mode.as_str() {
+                "rst" => {
+                  let std_s = st.into_std().expect("std");
+                  let s2 = socket2_linger0(std_s);
+                  drop(s2);
+                }
+                "hold" => held.push(st),
+                _ => drop(st),
+              }
+            }
+            _ => break,
+          }
+        }
+      }
     }
     "raw_drop_listener" => {
       let ln = op["listener"].as_str().unwrap_or("l").to_string();
@@ -628,6 +704,14 @@ async fn run_op(env: Arc<Env>, task: String, op: Value) {
         drop(st);
       }
       rec(&task, "ret", format!("\"op\":\"raw_close\",\"raw\":\"{}\",\"t\":{}", rn, ms(&env)));
+    }
+    "raw_shutdown" => {
+      // half-close: FIN on our side, the socket stays open for reading
+      let rn = op["raw"].as_str().unwrap_or("r").to_string();
+      if let Some(st) = env.raws.lock().await.get_mut(&rn) {
+        let _ = st.shutdown().await;
+      }
+      rec(&task, "ret", format!("\"op\":\"raw_shutdown\",\"raw\":\"{}\",\"t\":{}", rn, ms(&env)));
     }
     "raw_unix_connect" => {
       let rn = op["raw"].as_str().unwrap_or("r").to_string();
